@@ -519,6 +519,10 @@ func evalWhileLoopStmt(vm *r.VM, node *syntax.WhileLoopStmt) error {
 			}
 			return err
 		}
+		// #4. a 输出 statement inside the block ends the loop as well
+		if vm.GetReturnValue() != nil {
+			return nil
+		}
 	}
 }
 
@@ -599,6 +603,10 @@ func evalIterateStmt(vm *r.VM, node *syntax.IterateStmt) error {
 		_, err := evalPureStmtBlock(vm, node.IterateBlock)
 		return err
 	}
+	// a 输出 statement inside the iteration block ends the whole loop
+	hasReturned := func() bool {
+		return vm.GetReturnValue() != nil
+	}
 
 	// define indication variables as "currentKey" and "currentValue" under new iterScope
 	// of course since there's no any iteration is executed yet, the initial values are all "Null"
@@ -655,6 +663,9 @@ func evalIterateStmt(vm *r.VM, node *syntax.IterateStmt) error {
 				}
 				return err
 			}
+			if hasReturned() {
+				return nil
+			}
 		}
 	case *value.HashMap:
 		for _, key := range tv.GetKeyOrder() {
@@ -671,6 +682,9 @@ func evalIterateStmt(vm *r.VM, node *syntax.IterateStmt) error {
 					}
 				}
 				return err
+			}
+			if hasReturned() {
+				return nil
 			}
 		}
 	default:
